@@ -12,6 +12,11 @@ Theorem trace_checker_sound n c1 c2 : gtrace_equivn_b n c1 c2 = true -> gteqn n 
 Proof. exact (gtrace_equivn_b_sound n c1 c2). Qed.
 Print Assumptions trace_checker_sound.
 
+(* the checker is also complete: [false] proves that the two words are NOT equivalent *)
+Theorem trace_checker_decides n c1 c2 : gtrace_equivn_b n c1 c2 = true <-> gteqn n c1 c2.
+Proof. exact (gtrace_equivn_b_iff n c1 c2). Qed.
+Print Assumptions trace_checker_decides.
+
 (* equivalent words have equal products in EVERY monoid interpretation in which independent
    letters commute (unitaries, channels, measurements, callbacks as opaque letters) *)
 Theorem trace_sem_respects :
